@@ -20,7 +20,8 @@
 //   token lit         the character itself;  enc  '%' + two hex digits (random case per digit);
 //         raw         the byte itself;       bad  g1 "%G1"-like, 1g "%1G"-like, t1 "%4", t0 "%"
 // Expected injected headers are matched token by token; for an encoded blank both "+" and "%20" are
-// accepted, hex digits in either case (the statement pins neither).
+// accepted, hex digits in either case, and a token character may also appear escaped (the statement
+// pins none of these).
 // The carrier hands out exactly-sized heap copies without NUL terminator.
 #include <algorithm>
 #include <cstdint>
@@ -325,13 +326,15 @@ static bool match_header(const Conc &cz, const std::string &h, const std::vector
       size_t n         = t["n"].get<size_t>();
       for (size_t i = 0; i < n; ++i)
       {
-        if (kind == "lit" || kind == "raw")
+        // raw (separators, ;metadata): verbatim.  lit: the token character itself - its percent escape
+        // is tolerated too (the statement only says what MUST be escaped).  enc: must be escaped.
+        if (kind == "raw" || (kind == "lit" && pos < h.size() && h[pos] == c))
         {
           if (pos >= h.size() || h[pos] != c)
             return false;
           ++pos;
         }
-        else if (kind == "enc")
+        else if (kind == "enc" || kind == "lit")
         {
           if (c == ' ' && pos < h.size() && h[pos] == '+')
           {
